@@ -1,7 +1,7 @@
-(* Proofs/TypingWitness.v -- what holds of the tables read from the current source tree: the
-   operator tables are as specified; and, for each row that is NOT as specified, a program on which
-   the checker and the typing rules disagree.  Every statement is conditional on the state of the
-   generated table, so that this file compiles before and after the defects are repaired. *)
+(* Proofs/TypingWitness.v -- what holds of the tables read from the current source tree: every side
+   condition of check_iff_wt_tables is true of them (vm_compute), hence the closed theorems; and the
+   programs that exhibited the defects repaired in truth commits 2f23e04, daf145f, e620e4b, 8ea8263,
+   af0e0ca are now rejected / accepted as the typing rules say. *)
 From TV Require Import Base.I32 Base.F32 Model.Ops Model.Expr Model.TypeCheck Spec.TypingRules
   Gen.OpTable Gen.OpClass Gen.TcDispatch Proofs.TypingExpr Proofs.TypingSound Proofs.TypingDynamic.
 Open Scope Z_scope.
@@ -52,95 +52,61 @@ Definition w_pad_bad : list stmt := [SScript [SExpr (TCall (FIns 907) [] [TLitI 
 (* EnumName.x of a string-typed enum *)
 Definition w_enum : texpr := TEnum 1 5.
 
-Ltac by_table H := first [ vm_compute; reflexivity | exfalso; vm_compute in H; discriminate H ].
+(* the side conditions, by computation on the generated tables *)
+Lemma gen_dispatch_complete : dispatch_complete gen_tctable = true.
+Proof. vm_compute. reflexivity. Qed.
+Lemma gen_ct_enum_ok : ot_ct_enum gen_optypes = CT_enum_ty.
+Proof. vm_compute. reflexivity. Qed.
+Lemma gen_call_zip_ok : ot_call_zip gen_optypes = CZ_nondefault.
+Proof. vm_compute. reflexivity. Qed.
 
-Lemma free_block_refuted :
-  tc_stmt gen_tctable K_Block = D_Skip ->
-  exists G items, check_file gen_optypes G gen_tctable items = TOk /\ ~ wt_file G items.
-Proof.
-  intros H. exists G0, w_block. split; [by_table H | apply not_wt_by_ref; vm_compute; discriminate].
-Qed.
-
-Lemma interrupt_label_refuted :
-  tc_stmt gen_tctable K_InterruptLabel = D_Skip ->
-  exists G items, check_file gen_optypes G gen_tctable items = TOk /\ ~ wt_file G items.
-Proof.
-  intros H. exists G0, w_interrupt. split; [by_table H | apply not_wt_by_ref; vm_compute; discriminate].
-Qed.
-
-Lemma rel_time_label_refuted :
-  tc_stmt gen_tctable K_RelTimeLabel = D_Skip ->
-  exists G items, check_file gen_optypes G gen_tctable items = TOk /\ ~ wt_file G items.
-Proof.
-  intros H. exists G0, w_reltime. split; [by_table H | apply not_wt_by_ref; vm_compute; discriminate].
-Qed.
-
-Lemma const_item_refuted :
-  tc_item gen_tctable IK_ConstVar = I_Walk ->
-  exists G items, check_file gen_optypes G gen_tctable items = TOk /\ ~ wt_file G items.
-Proof.
-  intros H. exists G0, w_const. split; [by_table H | apply not_wt_by_ref; vm_compute; discriminate].
-Qed.
-
-(* defect 13: arguments are zipped against all parameters, including defaulted padding *)
-Lemma call_padding_refuted :
-  ot_call_zip gen_optypes = CZ_all ->
-  exists G good bad,
-    (wt_file G good /\ check_file gen_optypes G gen_tctable good <> TOk) /\
-    (check_file gen_optypes G gen_tctable bad = TOk /\ ~ wt_file G bad).
-Proof.
-  intros H. exists G0, w_pad_good, w_pad_bad. split; split.
-  - apply wt_by_ref. vm_compute. reflexivity.
-  - first [ vm_compute; discriminate | exfalso; vm_compute in H; discriminate H ].
-  - by_table H.
-  - apply not_wt_by_ref. vm_compute. discriminate.
-Qed.
-
-(* compute_ty says int for every enum const; check_expr says the enum's type *)
-Lemma compute_ty_enum_refuted :
-  ot_ct_enum gen_optypes = CT_enum_int ->
-  exists G e t, check_expr gen_optypes G e = Ok t /\ compute_ty gen_optypes G e <> Ok t.
-Proof.
-  intros H. exists G0, w_enum, (Value TString). split.
-  - vm_compute. reflexivity.
-  - first [ vm_compute; discriminate | exfalso; vm_compute in H; discriminate H ].
-Qed.
-
-(* ---- the positive theorems for the tables of the current tree ---- *)
+(* ---- the theorems for the tables of the current tree ---- *)
 Theorem check_iff_wt_gen G items :
-  file_guard gen_optypes G gen_tctable items = true ->
-  (check_file gen_optypes G gen_tctable items = TOk <-> wt_file G items).
-Proof. apply check_iff_wt_guarded. apply gen_optypes_ok. Qed.
-
-Theorem check_iff_wt_gen_unguarded :
-  dispatch_complete gen_tctable = true ->
-  ot_ct_enum gen_optypes = CT_enum_ty -> ot_call_zip gen_optypes = CZ_nondefault ->
-  forall G items, check_file gen_optypes G gen_tctable items = TOk <-> wt_file G items.
-Proof. intros HD Hct Hcz. apply check_iff_wt_tables; auto using gen_optypes_ok. Qed.
+  check_file gen_optypes G gen_tctable items = TOk <-> wt_file G items.
+Proof.
+  apply check_iff_wt_tables;
+    [apply gen_optypes_ok | apply gen_dispatch_complete | apply gen_ct_enum_ok | apply gen_call_zip_ok].
+Qed.
 
 Theorem compute_ty_agrees_gen G e t :
-  eguard gen_optypes G e = true ->
   check_expr gen_optypes G e = Ok t -> compute_ty gen_optypes G e = Ok t.
-Proof. apply compute_ty_agrees. Qed.
+Proof.
+  apply compute_ty_agrees_tables;
+    [apply gen_optypes_ok | apply gen_ct_enum_ok | apply gen_call_zip_ok].
+Qed.
+
+Lemma eguard_gen G e : eguard gen_optypes G e = true.
+Proof. apply eguard_all; [apply gen_ct_enum_ok | apply gen_call_zip_ok]. Qed.
 
 Theorem static_is_dynamic_gen' G libm regs locals cs diff e t v :
   env_ok G regs locals cs -> enums_ok G cs e ->
-  eguard gen_optypes G e = true ->
   check_expr gen_optypes G e = Ok (Value t) ->
   eval gen_optable libm regs locals cs diff (to_expr e) = Ok v ->
   type_of_value v = t /\ compute_ty gen_optypes G e = Ok (Value t).
 Proof.
-  intros HE Hen Hg Hc Hv. split.
+  intros HE Hen Hc Hv. split.
   - eapply static_is_dynamic_gen; eauto.
     pose proof (optypes_ok_pointwise _ gen_optypes_ok) as [? ? ? ? ? ? ?].
-    apply (check_expr_iff gen_optypes G); auto.
-  - apply compute_ty_agrees; auto.
+    apply (check_expr_iff gen_optypes G); auto. apply eguard_gen.
+  - apply compute_ty_agrees_gen; auto.
 Qed.
+
+(* the former counter-examples: ill-typed ones are rejected, the well-typed one is accepted *)
+Lemma former_witnesses :
+  check_file gen_optypes G0 gen_tctable w_block = TErr /\
+  check_file gen_optypes G0 gen_tctable w_interrupt = TErr /\
+  check_file gen_optypes G0 gen_tctable w_reltime = TErr /\
+  check_file gen_optypes G0 gen_tctable w_const = TErr /\
+  check_file gen_optypes G0 gen_tctable w_pad_bad = TErr /\
+  check_file gen_optypes G0 gen_tctable w_pad_good = TOk /\
+  compute_ty gen_optypes G0 w_enum = check_expr gen_optypes G0 w_enum.
+Proof. vm_compute. repeat split. Qed.
 
 (* non-vacuity: a program with nested loops, conditionals, declarations, calls and casts that
    satisfies the guard and is well-typed; the guard fails exactly on the witnesses above *)
 Definition prog_ok : list stmt :=
-  [SFunc (Value TInt) (Some [SReturn (Some (TBin (TVar x0) Mul (TVar c2)))]);
+  [SConst KwInt [(c2, TBin (TLitI 1) Add (TLitI 2))];
+   SFunc (Value TInt) (Some [SReturn (Some (TBin (TVar x0) Mul (TVar c2)))]);
    SScript [SDecl KwInt [(x0, Some (TLitI 3))];
             SWhile (TBin (TVar x0) Lt (TLitI 10))
               [STimes (Some x0) (TUn CastI (TVar x1))
@@ -148,14 +114,13 @@ Definition prog_ok : list stmt :=
                                [SAssign x1 AO_Mul (TUn CastF (TVar (Var (Some SgInt) (VReg 20000))));
                                 SExpr (TCall (FIns 900) [(PK_mask, TLitI 1)] [TTern (TVar x0) (TLitI 1) (TDiff (TLitI 2) [None; Some (TVar c2)])])])]
                              (Some [SLoop [SJump; SLabel; SAbsTime]])]];
+            SBlock [SInterrupt (TLitI 2); SRelTime (TBin (TLitI 2) Add (TLitI 3))];
             SCondJump (TXcr x0)]].
 
-Lemma prog_ok_guard : file_guard gen_optypes G0 gen_tctable prog_ok = true.
-Proof. vm_compute. reflexivity. Qed.
 Lemma prog_ok_wt : wt_file G0 prog_ok.
 Proof. apply wt_by_ref. vm_compute. reflexivity. Qed.
 Lemma prog_ok_checks : check_file gen_optypes G0 gen_tctable prog_ok = TOk.
-Proof. apply check_iff_wt_gen; [apply prog_ok_guard | apply prog_ok_wt]. Qed.
+Proof. apply check_iff_wt_gen. apply prog_ok_wt. Qed.
 
 Definition e_dyn : texpr := TBin (TUn CastF (TVar (Var (Some SgInt) (VReg 10004)))) Add (TVar x1).
 Lemma e_dyn_instance :
